@@ -60,9 +60,8 @@ static inline _Bool c_logical_witness_hits(uint64_t imm, unsigned width) {
   __CPROVER_ensures(__CPROVER_return_value < 256 && spec_vfp_expand_imm8(__CPROVER_return_value, 64) == val)
 
 #define CONTRACT_arm_Utils_is_byte_mask_imm_u64 \
-  __CPROVER_requires(__CPROVER_is_fresh(imm, sizeof(*imm))) \
   __CPROVER_assigns() \
-  __CPROVER_ensures(__CPROVER_return_value == spec_is_byte_mask(*imm))
+  __CPROVER_ensures(__CPROVER_return_value == spec_is_byte_mask(imm))
 #define CONTRACT_arm_Utils_encode_imm64_byte_mask_to_imm8 \
   __CPROVER_requires(spec_is_byte_mask(imm)) \
   __CPROVER_assigns() \
